@@ -33,13 +33,14 @@ def gen_prune_op(rng, case, allow_crits=True):
 
 
 def gen_item_C07(rng, idx, tier):
-    case = gen.gen_compute_case(rng, maxpix=48 if tier == 'quick' else 80)
+    case = gen.gen_compute_case(rng, maxpix=48 if tier == 'quick' else 80, force={'bigint': True})
     # start from a rich tree more often than not
     if rng.random() < 0.6:
         case['mind'] = 0
         case['minn'] = 0
         case['crits'] = []
-    ops = [gen_prune_op(rng, case) for _ in range(rng.choice([1, 1, 2, 2, 3, 4]))]
+    # beyond 2**53 thresholds derived from values stay integers; user criteria carry float thresholds
+    ops = [gen_prune_op(rng, case, allow_crits=case['kind'] != 'bigint') for _ in range(rng.choice([1, 1, 2, 2, 3, 4]))]
     return {'case': case, 'ops': ops}
 
 
@@ -157,7 +158,7 @@ def eval_C07(item):
         # parameter bookkeeping against the model's pruneParam (0 inherits; the record is replaced unless the
         # effective request is smaller)
         fb = item['case']['fb']
-        for key, req, conv in (('min_delta', st.op[1], lambda v: impl.to_k(v, fb)), ('min_npix', st.op[2], lambda v: int(v))):
+        for key, req, conv in (('min_delta', st.op[1], lambda v: impl.to_k(v, fb)), ('min_npix', st.op[2], lambda v: impl.npix_param(v))):
             before_v = conv(st.extra['params_before'][key])
             ans = dict(l.split(' ', 1) for l in session.driver().ask('pruneparam %d %d' % (before_v, req)))
             if 'recorded' in ans and conv(st.extra['params_after'][key]) != int(ans['recorded']):
@@ -180,7 +181,7 @@ def eval_C07(item):
 # C08
 
 def gen_item_C08(rng, idx, tier):
-    case = gen.gen_compute_case(rng, maxpix=40 if tier == 'quick' else 64)
+    case = gen.gen_compute_case(rng, maxpix=40 if tier == 'quick' else 64, force={'bigint': True})
     case['crits'] = []
     vals = sorted(set(x for x in case['k'] if x is not None))
     mode = rng.choice(['npix', 'npix', 'delta', 'both'])
@@ -605,6 +606,7 @@ def _apply_prune(d, case, op, drv):
     md = Fraction(mind, 2 ** case['fb'])
     kw['min_delta'] = int(md) if md.denominator == 1 else float(md)
     kw['min_npix'] = minn
+    impl.style_params(case, kw)
     c2 = dict(case)
     c2['crits'] = crits
     fs = impl.user_criteria(c2, unit)
@@ -615,5 +617,5 @@ def _apply_prune(d, case, op, drv):
         warnings.simplefilter('ignore')
         d.prune(**kw)
     eff_d = mind if mind != 0 else impl.to_k(before['min_delta'], case['fb'])
-    eff_n = minn if minn != 0 else int(before['min_npix'])
+    eff_n = minn if minn != 0 else impl.npix_param(before['min_npix'])
     return parse_block(drv.ask('prune crit=' + impl.crit_string(c2, mind=eff_d, minn=eff_n)))
